@@ -104,7 +104,8 @@ Proof.
       * I_send HI1 H.
       * match type of H with context [c_approve cfg ?ns] => destruct (negb (c_approve cfg ns)) end.
         -- I_send HI1 H.
-        -- destruct (change_state (start_timers s1) SuccessfulLogged) as [s3 o3] eqn:E3.
+        -- match type of H with context [Z.leb ?hb 0] => destruct (Z.leb hb 0) end; [I_send HI1 H|].
+           destruct (change_state (start_timers s1) SuccessfulLogged) as [s3 o3] eqn:E3.
            match type of H with context [session_send cfg s3 ?m] => destruct (session_send cfg s3 m) as [s4 o4] eqn:E4 end.
            match type of H with context [process_inc_seq cfg s4 ?q] => destruct (process_inc_seq cfg s4 q) as [s5 o5] eqn:E5 end.
            inversion H; subst.
